@@ -787,7 +787,11 @@ static void gen_scope_match_handler(fb_output_t *out, fb_compound_type_t *unused
     fb_clear(snt);
     fb_compound_name(ct, &snt);
     /* May be included from another file. Unions also have _enum parsers. */
-    println(out, "buf = %s_parse_json_enum(ctx, buf, end, value_type, value, aggregate);", snt.text);
+    println(out, "buf = %s_parse_json_enum(ctx, (mark = buf), end, value_type, value, aggregate);", snt.text);
+    /* The scope matched but the symbol did not: the whole qualified name is unmatched and nothing was assigned. */
+    println(out, "if (buf == mark) {"); indent();
+    println(out, "return unmatched;");
+    unindent(); println(out, "}");
 }
 
 static void gen_scope_match(fb_output_t *out, fb_compound_type_t *ct, void *data, int hint, int n)
